@@ -117,13 +117,13 @@ impl std::hash::Hasher for RecHasher {
 
 impl std::fmt::Display for Node {
     fn fmt(&self, f: &mut std::fmt::Formatter<'_>) -> std::fmt::Result {
-        write!(f, "node{}", self.id)
+        f.pad(&format!("node{}", self.id))
     }
 }
 
 impl std::fmt::Debug for Node {
     fn fmt(&self, f: &mut std::fmt::Formatter<'_>) -> std::fmt::Result {
-        write!(f, "Node({})", self.id)
+        f.pad(&format!("Node({})", self.id))
     }
 }
 
@@ -136,6 +136,9 @@ impl Clone for Node {
             s.next_pid += 1;
             id
         });
+        if ST.with(|s| s.borrow().clone_panics) {
+            panic!("T::clone panicked (script)");
+        }
         let unlinked = ST.with(|s| s.borrow().clone_unlinked);
         Node {
             _align: 0,
@@ -202,6 +205,7 @@ struct State {
     seed: u64,
     addr2obj: HashMap<usize, usize>,
     clone_unlinked: bool,
+    clone_panics: bool,
 }
 
 thread_local! {
@@ -391,7 +395,11 @@ fn run_op(op: &Op, _in_dtor: bool) {
                         _ => panic!("SCRIPT: cannot drop raw"),
                     }
                 }
-                "clone_mode" => ST.with(|s| s.borrow_mut().clone_unlinked = a[1] == "unlinked"),
+                "clone_mode" => ST.with(|s| {
+                    let mut s = s.borrow_mut();
+                    s.clone_unlinked = a[1] == "unlinked";
+                    s.clone_panics = a[1] == "panic";
+                }),
                 "drop_if" => {
                     let h = ST.with(|s| s.borrow_mut().handles.remove(a[1]));
                     if let Some(h) = h {
@@ -525,8 +533,15 @@ fn run_op(op: &Op, _in_dtor: bool) {
                     let extra = rh.0 as isize - 8 * ids.len() as isize;
                     out(format!("ret hash thash={},extra={},ids={}", ids.len(), if extra == 0 { 0 } else { 1.max(extra / 8) }, if ids.is_empty() { "-".to_string() } else { ids.join("+") }));
                 }
-                "fmt_display" => out(format!("ret fmt_display {}:ok", with_rc(a[1], |r| format!("{}", r)).replace(' ', "_"))),
-                "fmt_debug" => out(format!("ret fmt_debug {}:ok", with_rc(a[1], |r| format!("{:?}", r)).replace(' ', "_"))),
+                "fmt_display" => {
+                    // the caller's format spec must reach T's formatter: compare a padded rendering with T's own
+                    let (t, dropped) = with_rc(a[1], |r| (format!("{}", r), format!("{:*>14.5}", r) != format!("{:*>14.5}", **r)));
+                    out(format!("ret fmt_display {}{}:ok", t.replace(' ', "_"), if dropped { "[spec-dropped]" } else { "" }));
+                }
+                "fmt_debug" => {
+                    let (t, dropped) = with_rc(a[1], |r| (format!("{:?}", r), format!("{:*>14?}", r) != format!("{:*>14?}", **r)));
+                    out(format!("ret fmt_debug {}{}:ok", t.replace(' ', "_"), if dropped { "[spec-dropped]" } else { "" }));
+                }
                 "fmt_pointer" => {
                     let same = with_rc(a[1], |r| format!("{:p}", *r) == format!("{:p}", &**r as *const Node));
                     out(format!("ret fmt_pointer {}:ok", if same { "<ptr:value-of-self>" } else { "<ptr:other>" }));
@@ -698,10 +713,10 @@ fn run_script(name: String, ops: Vec<Op>, seed: u64) {
 }
 
 #[cfg(feature = "stdrc")]
-fn ring_at_scale(_n: usize, _stack_kb: usize, _noop_self: bool) {}
+fn ring_at_scale(_n: usize, _stack_kb: usize, _noop_self: bool, _stale_spares: bool) {}
 
 #[cfg(not(feature = "stdrc"))]
-fn ring_at_scale(n: usize, stack_kb: usize, noop_self: bool) {
+fn ring_at_scale(n: usize, stack_kb: usize, noop_self: bool, stale_spares: bool) {
     // C15 confirmation at scale: build a ring of n adopted objects and collect it on a small stack
     static DESTROYED: AtomicUsize = AtomicUsize::new(0);
     struct R {
@@ -728,6 +743,12 @@ fn ring_at_scale(n: usize, stack_kb: usize, noop_self: bool) {
                 unsafe { Rc::adopt_unchecked(&node, &node) };
             }
             unsafe { Rc::adopt_unchecked(&node, &next) };
+            if stale_spares {
+                // a second recorded handle to the successor that is given up again without unadopt (documented as safe)
+                let spare = Rc::clone(&next);
+                unsafe { Rc::adopt_unchecked(&node, &spare) };
+                drop(spare);
+            }
             *node.next.borrow_mut() = Some(next);
             next = node;
         }
@@ -798,11 +819,15 @@ fn main() {
         return;
     }
     if args.len() >= 4 && args[1] == "--ring" {
-        ring_at_scale(args[2].parse().unwrap(), args[3].parse().unwrap(), false);
+        ring_at_scale(args[2].parse().unwrap(), args[3].parse().unwrap(), false, false);
         return;
     }
     if args.len() >= 4 && args[1] == "--ring-noop" {
-        ring_at_scale(args[2].parse().unwrap(), args[3].parse().unwrap(), true);
+        ring_at_scale(args[2].parse().unwrap(), args[3].parse().unwrap(), true, false);
+        return;
+    }
+    if args.len() >= 4 && args[1] == "--ring-stale" {
+        ring_at_scale(args[2].parse().unwrap(), args[3].parse().unwrap(), false, true);
         return;
     }
     let path = &args[1];
